@@ -6,6 +6,7 @@ import numpy as np
 
 from .. import instr
 from .. import primscenes as ps
+from ..bootstrap import tier as bootstrap_tier
 from ..refmodel import prims as rp
 
 PROPERTY = "C10"
@@ -24,6 +25,8 @@ OWN = "C10"
 
 def warmup():
     import distance3d.distance  # noqa
+    if bootstrap_tier() == "thorough":
+        ps.enumerate_states(thorough=True)     # extends the shift table before the workers fork
     for name in ps.all_names():
         ka, kb = ps.FUNCS.get(name, ps.VARIANTS.get(name))
         try:
@@ -33,7 +36,7 @@ def warmup():
 
 
 def enumerate_states(tier, seed):
-    states = ps.enumerate_states()
+    states = ps.enumerate_states(thorough=(tier == "thorough"))
     n_pairs = sum(len(ps.alph(ps.FUNCS.get(n, ps.VARIANTS.get(n))[0])) * len(ps.alph(ps.FUNCS.get(n, ps.VARIANTS.get(n))[1])) for n in ps.all_names())
     return states, {"bound_completed": "full product of the two primitive alphabets for all 34 functions (+ point_to_ellipsoid surface variant): %d pairs; for the 14 polygon/box functions additionally 11 translated copies of the second primitive" % n_pairs,
                     "exhaustive": True}
